@@ -37,6 +37,10 @@ def _render_list_item(
             continue
         text += renderer.render_token(tok, state)
 
+    if parent["tight"] and renderer.NAME == "markdown":
+        # no blank line may follow an item of a tight list, whatever block ends it
+        text = text.rstrip("\n") + "\n"
+
     lines = text.splitlines()
     text = (lines[0] if lines else "") + "\n"
     prefix = " " * len(leading)
